@@ -98,6 +98,25 @@ pub fn run(cases: &[String]) -> RunOut {
                     Ok(l) if l.value() == s => {}
                     _ => err = Some("GENERATOR: literal does not denote the string".into()),
                 }
+                // the run-time constructor on a buffer that is reused: same address and length, different text. The string is
+                // all the function may depend on, not where it lives or what was hashed there before.
+                {
+                    let mut scratch = String::with_capacity(s.len() + 8);
+                    scratch.push_str(&s);
+                    let a = guarded(|| ArrayDiscriminator::new_with_hash_input(&scratch));
+                    let rotated: String = { let mut cs: Vec<char> = s.chars().collect(); cs.rotate_left(1.min(s.chars().count())); cs.into_iter().collect() };
+                    scratch.clear();
+                    scratch.push_str(&rotated);
+                    let b2 = guarded(|| ArrayDiscriminator::new_with_hash_input(&scratch));
+                    let again = guarded(|| ArrayDiscriminator::new_with_hash_input(&s));
+                    let want_rot = Sha256::digest(rotated.as_bytes())[..8].to_vec();
+                    if a.map(|d| d.as_slice().to_vec()) != Some(expect.clone()) || again.map(|d| d.as_slice().to_vec()) != Some(expect.clone()) {
+                        err = Some("run-time discriminator of the same string differs between calls".into());
+                    }
+                    if b2.map(|d| d.as_slice().to_vec()) != Some(want_rot) {
+                        err = Some(format!("run-time discriminator of a string written over an earlier one in the same buffer (`{}` after `{}`) is not its SHA-256[..8]", rotated.escape_debug(), s.escape_debug()));
+                    }
+                }
                 if err.is_none() {
                     if rt_s != hex(&expect) { err = Some(format!("run-time discriminator != SHA-256[..8] = {}", hex(&expect))); }
                     if ct_s != hex(&expect) { err = Some(format!("compile-time discriminator != SHA-256[..8] = {}", hex(&expect))); }
